@@ -828,14 +828,25 @@ Fixpoint exact_block2 (en : env) (D X : list bool) (b : list stmt) : list bool *
   | (x, e) :: r => let o := ok_expr2 en D e in
                    exact_block2 en (setb D x o) (setb X x (o && exact_expr2 en X e)) r
   end.
+(* the loop invariant: the sets found after the initialisation block need not be preserved by the loop body (a value that is exact after the
+   peeled first pass may be joined with an inexact one in later passes); they are shrunk - intersected with what one more execution of the body
+   gives - until the body preserves them (at most `fuel` times) *)
+Fixpoint andl (a b : list bool) : list bool :=
+  match a, b with x :: r, y :: s => (x && y) :: andl r s | _, _ => [] end.
+Fixpoint refine2 (fuel : nat) (en : env) (body : list stmt) (D X : list bool) : option (list bool * list bool) :=
+  let '(D', X') := exact_block2 en D X body in
+  if subb D D' && subb X X' then Some (D, X)
+  else match fuel with 0 => None | S f => refine2 f en body (andl D D') (andl X X') end.
 Definition all_exact2 (en : env) (p : prog) (want : list nat) : bool :=
   let '(D1, X1) := exact_block2 en [] [] (p_init p) in
-  let '(D2, X2) := exact_block2 en D1 X1 (p_body p) in
-  subb D1 D2 && subb X1 X2 &&
-  forallb (fun k => match nth_error (p_outs p) k with
-                    | Some o => ok_expr2 en D1 (snd o) && exact_expr2 en X1 (snd o)
-                    | None => false
-                    end) want.
+  match refine2 6 en (p_body p) D1 X1 with
+  | Some (Dm, Xm) =>
+      forallb (fun k => match nth_error (p_outs p) k with
+                        | Some o => ok_expr2 en Dm (snd o) && exact_expr2 en Xm (snd o)
+                        | None => false
+                        end) want
+  | None => false
+  end.
 Definition ext_exact_any (p : prog) (want : list nat) : bool :=
   forallb (fun t => forallb (fun m => all_exact2 (mkenv t m) p want) mask_dts) ctxs.
 Definition ext_exact_same (p : prog) (want : list nat) : bool := forallb (fun t => all_exact2 (mkenv t t) p want) ctxs.
